@@ -1219,17 +1219,6 @@ class PhasedVcfWriter(VcfAugmenter):
                 phases = sample_phases[sample]
                 genotypes = sample_genotypes[sample]
 
-                if (
-                    self.tag in call
-                    and call[self.tag] is not None
-                    and not self._phase_tag_found_warned
-                ):
-                    logger.warning(
-                        "Ignoring existing phasing information "
-                        "found in input VCF ({} tag exists).".format(self.tag)
-                    )
-                    self._phase_tag_found_warned = True
-
                 gt_type = genotype_code(call["GT"])
                 is_het = not gt_type.is_homozygous()
 
@@ -1265,14 +1254,31 @@ class PhasedVcfWriter(VcfAugmenter):
         return genotype_changes
 
     def _remove_existing_phasing(self, record: VariantRecord, samples: Iterable[str]):
-        if self.tag == "PS":
-            for sample in samples:
-                call = record.samples[sample]
-                if "GT" not in call:
+        # Both encodings are removed, whichever tag is being written: a stale HP value next to a
+        # new GT/PS phasing (or vice versa) would survive as a second, conflicting phase
+        # statement. The genotype is sorted because _set_HP assumes a sorted GT.
+        for sample in samples:
+            call = record.samples[sample]
+            for tag in ("HP", "PS"):
+                if tag not in call:
                     continue
-                call.phased = False
-                if call["GT"] is not None and all(allele is not None for allele in call["GT"]):
-                    call["GT"] = sorted(call["GT"])
+                value = call[tag]
+                if not isinstance(value, tuple):
+                    value = (value,)
+                if any(v is not None and v != "." for v in value):
+                    if tag == self.tag and not self._phase_tag_found_warned:
+                        logger.warning(
+                            "Ignoring existing phasing information "
+                            "found in input VCF ({} tag exists).".format(self.tag)
+                        )
+                        self._phase_tag_found_warned = True
+                    # pysam writes an empty (invalid) field when a String tag is set to None
+                    call[tag] = "." if tag == "HP" else None
+            if "GT" not in call:
+                continue
+            call.phased = False
+            if call["GT"] is not None and all(allele is not None for allele in call["GT"]):
+                call["GT"] = sorted(call["GT"])
 
 
 def genotype_code(gt: Optional[Tuple[Optional[int], ...]]) -> Genotype:
